@@ -137,6 +137,8 @@ def c10_equivalent(n, seed, procs):
         ("equiv_forms", "wc_proximal_point_lmi_on_pep", "PEPit.examples.unconstrained_convex_minimization.proximal_point", "wc_proximal_point", dict(gamma=2.5, n=2)),
         ("equiv_forms", "wc_proximal_point_condition_on_function", "PEPit.examples.unconstrained_convex_minimization.proximal_point", "wc_proximal_point", dict(gamma=1.0, n=3)),
         ("equiv_forms", "wc_proximal_point_condition_twice", "PEPit.examples.unconstrained_convex_minimization.proximal_point", "wc_proximal_point", dict(gamma=0.7, n=4)),
+        ("equiv_forms", "wc_proximal_point_lmi_asymmetric_upper", "PEPit.examples.unconstrained_convex_minimization.proximal_point", "wc_proximal_point", dict(gamma=1.25, n=2)),
+        ("equiv_forms", "wc_proximal_point_lmi_asymmetric_lower", "PEPit.examples.unconstrained_convex_minimization.proximal_point", "wc_proximal_point", dict(gamma=0.8, n=3)),
         ("equiv_forms", "wc_gradient_descent_epigraph", "PEPit.examples.unconstrained_convex_minimization.gradient_descent", "wc_gradient_descent", dict(L=2, gamma=0.5, n=3)),
     ]
     rnd = random.Random(seed)
